@@ -118,6 +118,15 @@ Theorem stream_decodes_to_prefix : forall (prod : C06.Model.producer) (ev : nat 
        messages (interpret (wire ev (C06.Model.e_out s))) = deliveries [] (map (fun k => Ev (ev k)) (seq 0%nat d))).
 Proof. exact stream_decodes_to_prefix_proof. Qed.
 
+(* The headers of a response constructed with charset cs (either interface) carry exactly one Content-Type, and
+   it announces cs: "text/event-stream; charset=" ++ cs — the charset the body is encoded with (build_translated_codec
+   of the source-level tie: one codec for every piece).  The default is utf-8.  The correspondence reads every live
+   stream back with the charset the response announces, on one response object answering several requests. *)
+Theorem announced_charset : forall (asgi : bool) (cs : list N),
+  content_types (sse_headers_cs asgi cs) = [lit "text/event-stream; charset=" ++ cs] /\
+  sse_headers asgi = sse_headers_cs asgi (lit "utf-8").
+Proof. exact announced_charset_proof. Qed.
+
 (* non-vacuity: two events around a ping and the final body decode to the two messages *)
 Example stream_decodes_example :
   let ev := fun k : nat => [Id (Lib.Wire.dec (N.of_nat k)); Data (lit "x")] in
@@ -135,3 +144,4 @@ Print Assumptions sequence_messages.
 Print Assumptions splitlines_refuted.
 Print Assumptions splitlines_refuted_unicode.
 Print Assumptions stream_decodes_to_prefix.
+Print Assumptions announced_charset.
